@@ -7,7 +7,7 @@ P=$1; WT=$2; N=$3; shift 3; PKGS="$@"
 S=$WT/_seed/$N
 cd $WT && git checkout -q -- . && git clean -fdq -e _seed >/dev/null
 echo "== baseline (no change): demo must pass"
-cp $S/${DEMO_SRC:-demo_test.go} $WT/$DEMO_DST
+mkdir -p $(dirname $WT/$DEMO_DST); cp $S/${DEMO_SRC:-demo_test.go} $WT/$DEMO_DST
 ( cd $WT && go test -count=1 $DEMO_RUN 2>&1 | tail -3 ); rc_clean=${PIPESTATUS[0]}
 rm -f $WT/$DEMO_DST
 echo "== apply change"
@@ -16,7 +16,7 @@ echo "== apply change"
 echo "== existing tests of touched packages"
 ( cd $WT && go test -count=1 $PKGS 2>&1 | tail -5 )
 echo "== demo with change: must fail"
-cp $S/${DEMO_SRC:-demo_test.go} $WT/$DEMO_DST
+mkdir -p $(dirname $WT/$DEMO_DST); cp $S/${DEMO_SRC:-demo_test.go} $WT/$DEMO_DST
 ( cd $WT && go test -count=1 $DEMO_RUN 2>&1 | tail -6 )
 rm -f $WT/$DEMO_DST
 echo "== check against the changed tree"
